@@ -527,7 +527,11 @@ def _floorlike(s, kind):
         k = dag.var(f"{kind}_{n.id}", "I")
         e.defs[key] = k
         one, half = dag.ONE, const(Fraction(1, 2))
-        if kind == "floor":
+        pq = _int_ratio(n, e)
+        if kind == "floor" and pq is not None:
+            a, b = pq           # floor(a/b), b > 0 integer:  b*k <= a < b*k + b   (division-free, integer arithmetic)
+            ax = f_and(cmp("le", dag.mul(b, k), a), cmp("lt", a, dag.add(dag.mul(b, k), b)))
+        elif kind == "floor":
             ax = f_and(cmp("le", k, n), cmp("lt", n, dag.add(k, one)))
         elif kind == "ceil":
             ax = f_and(cmp("lt", dag.sub(k, one), n), cmp("le", n, k))
@@ -535,6 +539,23 @@ def _floorlike(s, kind):
             ax = f_and(cmp("le", dag.sub(k, half), n), cmp("le", n, dag.add(k, half)))
         e.def_axioms.append(ax)
     return Sym(k)
+
+
+def _int_ratio(n, e):
+    """n == a / b with integer nodes a, b and b declared positive (engine.positive) -> (a, b)."""
+    if n.op != "mul":
+        return None
+    num, den = dag.ONE, dag.ONE
+    for b, ex in n.args[0]:
+        if not is_int_node(b):
+            return None
+        if ex > 0:
+            num = dag.mul(num, dag.powi(b, ex))
+        else:
+            if b.id not in e.positive:
+                return None
+            den = dag.mul(den, dag.powi(b, -ex))
+    return (num, den) if den is not dag.ONE else None
 
 
 # ----------------------------------------------------------------------------- path explorer
@@ -548,6 +569,7 @@ class Engine:
         self.assumptions = list(assumptions)     # formulas
         self.defs = {}
         self.def_axioms = []
+        self.positive = set()      # ids of nodes the harness declared (and assumed) strictly positive
         self.timeout_ms = timeout_ms
         self.max_paths = max_paths
         self.max_enum = max_enum
